@@ -130,7 +130,7 @@ fn fill(s: &Value, defs: &Value, k: u128, who: &str, hint: &str, depth: u32) -> 
             if ["addr", "recipient", "to", "contract", "owner", "sender", "admin", "member", "group"].iter().any(|w| h == *w || (w.len() > 2 && h.contains(w))) {
                 json!(who)
             } else if h.contains("denom") {
-                json!(denom(0))
+                json!(dn(0))
             } else {
                 json!(k.to_string())
             }
@@ -174,6 +174,46 @@ fn raw_msg(root: &Value, name: &str, k: u128, who: &str) -> Value {
     let mut m = Map::new();
     m.insert(name.to_string(), json!({}));
     Value::Object(m)
+}
+
+
+// ------------------------------------------------------------------------------------------------ denoms (local naming)
+
+/// Bank denoms are case-sensitive byte strings. Besides the shared `ustars` / `denom{n}` names this file uses
+/// * 20 = an IBC voucher denom (`ibc/<UPPER-CASE SHA-256 hex>`), 21 = a token-factory denom with a mixed-case subdenom,
+///   22 = the lower-cased twin of 20 (a DIFFERENT denom) — all three can be minted, held, attached and listed;
+/// * 30 = `" ustars"`, 31 = `"ustars "`, 32 = `"USTARS"`, 33 = `" ibc/<UPPER> "`: strings that only ever appear as ENTRIES of a
+///   `denom_list`. Nobody holds them, so listing them selects nothing — they are not `ustars` / denom 20.
+/// The model sees the ids only (distinct naturals = distinct denoms).
+const DN_IBC_UP: u64 = 20;
+const DN_FACTORY_MIXED: u64 = 21;
+const DN_IBC_LOW: u64 = 22;
+const DN_ALIASES: [u64; 4] = [30, 31, 32, 33];
+const IBC_UP: &str = "ibc/27394FB092D2ECCD56123C74F36E4C1F926001CEADA9CA97EA622B25F41E5EB2";
+const FACTORY_MIXED: &str = "factory/acct00900/uSplitLP";
+
+fn dn(id: u64) -> String {
+    match id {
+        20 => IBC_UP.to_string(),
+        21 => FACTORY_MIXED.to_string(),
+        22 => IBC_UP.to_lowercase(),
+        30 => format!(" {}", denom(0)),
+        31 => format!("{} ", denom(0)),
+        32 => denom(0).to_uppercase(),
+        33 => format!(" {IBC_UP} "),
+        n => denom(n),
+    }
+}
+fn dn_id(s: &str) -> u64 {
+    for id in [20u64, 21, 22, 30, 31, 32, 33] {
+        if s == dn(id) {
+            return id;
+        }
+    }
+    denom_id(s)
+}
+fn coins15(pairs: &[(u128, u128)]) -> Vec<Coin> {
+    pairs.iter().map(|(d, a)| cosmwasm_std::coin(*a, dn(*d as u64))).collect()
 }
 
 // ------------------------------------------------------------------------------------------------ observations
@@ -274,7 +314,7 @@ impl World {
         let mut bank = Bal::new();
         for id in &self.tracked {
             for c in q.query_all_balances(addr(*id)).expect("balances") {
-                bank.insert((*id, denom_id(&c.denom)), c.amount.u128());
+                bank.insert((*id, dn_id(&c.denom)), c.amount.u128());
             }
         }
         Snap { sadmin, gadmin: gadmin.admin.map(|s| addr_id(&s)), total: total.weight, members, bank }
@@ -347,7 +387,7 @@ fn parse_transfers(res: &AppResponse, from: &Addr) -> Option<Vec<(u64, u64, u128
         for part in amount.split(',') {
             let i = part.find(|c: char| !c.is_ascii_digit()).unwrap_or(part.len());
             let amt: u128 = part[..i].parse().ok()?;
-            out.push((to, denom_id(&part[i..]), amt));
+            out.push((to, dn_id(&part[i..]), amt));
         }
     }
     Some(out)
@@ -455,13 +495,13 @@ impl S {
         let res: Result<AppResponse, String> = match op {
             "mint" => {
                 let to = addr(kv_u64(line, "to").unwrap());
-                let coins = coins_of(&kv_pairs(line, "coins").unwrap());
+                let coins = coins15(&kv_pairs(line, "coins").unwrap());
                 w.app.sudo(SudoMsg::Bank(BankSudo::Mint { to_address: to, amount: coins })).map_err(|e| e.to_string())
             }
             "send" => {
                 let from = a(kv_u64(line, "from").unwrap());
                 let to = a(kv_u64(line, "to").unwrap());
-                let coins = coins_of(&kv_pairs(line, "coins").unwrap());
+                let coins = coins15(&kv_pairs(line, "coins").unwrap());
                 w.app.send_tokens(from, to, &coins).map_err(|e| e.to_string())
             }
             "update_members" => {
@@ -483,19 +523,19 @@ impl S {
             "distribute" => {
                 let sender = a(kv_u64(line, "sender").unwrap());
                 let funds_ids = kv_pairs(line, "funds").unwrap();
-                let funds: Vec<Coin> = coins_of(&funds_ids);
-                let denom_list: Option<Vec<String>> = explicit_denoms(line).map(|l| l.iter().map(|d| denom(*d)).collect());
+                let funds: Vec<Coin> = coins15(&funds_ids);
+                let denom_list: Option<Vec<String>> = explicit_denoms(line).map(|l| l.iter().map(|d| dn(*d)).collect());
                 // witness: what `query_all_balances(contract)` returns inside the transaction = the non-zero
                 // balances after the attached funds arrived, in the bank's order (denom strings ascending)
                 let mut held: BTreeMap<String, (u64, u128)> = BTreeMap::new();
                 for c in w.app.wrap().query_all_balances(&w.splits).unwrap() {
-                    held.insert(c.denom.clone(), (denom_id(&c.denom), c.amount.u128()));
+                    held.insert(c.denom.clone(), (dn_id(&c.denom), c.amount.u128()));
                 }
                 for (d, n) in &funds_ids {
                     if sender == w.splits {
                         break; // a transfer to oneself adds nothing
                     }
-                    let e = held.entry(denom(*d as u64)).or_insert((*d as u64, 0));
+                    let e = held.entry(dn(*d as u64)).or_insert((*d as u64, 0));
                     e.1 = e.1.saturating_add(*n);
                 }
                 let order: Vec<u64> = held.values().filter(|v| v.1 != 0).map(|v| v.0).collect();
@@ -508,7 +548,7 @@ impl S {
             }
             "exec_raw" => {
                 let sender_id = kv_u64(line, "sender").unwrap();
-                let funds: Vec<Coin> = coins_of(&kv_pairs(line, "funds").unwrap());
+                let funds: Vec<Coin> = coins15(&kv_pairs(line, "funds").unwrap());
                 let name = kv(line, "v").unwrap();
                 let k = kv_u128(line, "k").unwrap_or(1);
                 let msg = raw_msg(&schema, name, k, &addr(sender_id));
@@ -748,6 +788,22 @@ impl Sut for S {
             }
             if !something {
                 return bad("nothing-accepted", "no selected denom has balance >= total weight".into());
+            }
+            // a denom the harness listed VERBATIM, of which it funded at least the total weight, in an accepted call — and yet no
+            // weighted member other than the contract received anything of it (judged on the list SENT, not on what the contract made of it)
+            if let Some(l) = &explicit {
+                for d in l {
+                    if held(*d) / total >= 1 {
+                        let others: Vec<&(u64, u64)> = members.iter().filter(|m| m.0 != me && m.1 > 0).collect();
+                        let nobody_paid = others.iter().all(|m| {
+                            let b0 = t.pre.bal(m.0, *d).saturating_sub(if m.0 == sender { fund_of(*d) } else { 0 });
+                            t.post.bal(m.0, *d) <= b0
+                        });
+                        if !others.is_empty() && nobody_paid {
+                            return bad("listed-denom-not-paid", format!("denom {d} (`{}`) was listed, the contract held {} >= total weight {total}, the call succeeded, but no member received weight x floor({}/{total}) of it", dn(*d), held(*d), held(*d)));
+                        }
+                    }
+                }
             }
             // what every account other than the contract gained (bank balances; the sender's attached funds taken out first)
             let accounts: BTreeSet<u64> = t.pre.bank.keys().chain(t.post.bank.keys()).map(|k| k.0).chain(members.iter().map(|m| m.0)).collect();
@@ -1079,7 +1135,7 @@ impl<'a> G<'a> {
         let cur = self.sut.cur.clone();
         let (sender, sclass) = self.pick_sender(valid_sender);
         let held: Vec<u64> = cur.bank.iter().filter(|((a_, _), n)| *a_ == me && **n != 0).map(|((_, d), _)| *d).collect();
-        let (denoms, dclass): (String, &str) = match self.rng.below(12) {
+        let (denoms, dclass): (String, &str) = match self.rng.below(17) {
             0..=3 => ("none".into(), "implicit"),
             4 | 5 => (fmt_list(&held), "explicit-all"),
             6 => {
@@ -1103,6 +1159,25 @@ impl<'a> G<'a> {
             }
             9 => ("-".into(), "explicit-empty"),
             10 => ("9".into(), "explicit-unknown"),
+            12 => {
+                // entries that differ from a held denom only by case / surrounding blanks: they name OTHER denoms (nobody holds them)
+                let mut h = held.clone();
+                let k = self.rng.range(1, 2) as usize;
+                for _ in 0..k {
+                    h.push(*self.rng.pick(&DN_ALIASES));
+                }
+                self.rng.shuffle(&mut h);
+                (fmt_list(&h), "explicit-with-alias-denoms")
+            }
+            13 => {
+                let alias = *self.rng.pick(&DN_ALIASES);
+                (format!("{alias}"), "explicit-alias-only")
+            }
+            14 | 15 => {
+                let mut h = held.clone();
+                self.rng.shuffle(&mut h);
+                (fmt_list(&h), "explicit-shuffled")
+            }
             _ => {
                 let mut h = held.clone();
                 h.reverse();
@@ -1502,6 +1577,50 @@ impl<'a> G<'a> {
         self.ses.end_case();
     }
 
+    /// scripted: bank denoms are case-sensitive byte strings — IBC vouchers (`ibc/<UPPER-CASE HEX>`), mixed-case token-factory denoms,
+    /// a lower-cased twin, list entries with surrounding blanks / other case (which name denoms nobody holds)
+    fn scenario_case_denoms(&mut self, mode: &str) {
+        if !self.start("case-denoms", mode, Some(ADMIN), Some(GADMIN), &[(10, 50), (11, 30), (12, 20), (13, 0)]) {
+            self.ses.end_case();
+            return;
+        }
+        let me = self.me();
+        self.mint(me, &[(0, 1234), (DN_IBC_UP, 5678), (DN_FACTORY_MIXED, 777), (DN_IBC_LOW, 345)], false);
+        let run = |g: &mut G, name: &str, denoms: &str| -> bool {
+            let o = g.step(format!("distribute sender={ADMIN} funds=- denoms={denoms}"));
+            g.ses.mark(format!("denoms:{name}:{}", if o.starts_with("ok") { "ok" } else { "err" }));
+            o.starts_with("ok")
+        };
+        // listed next to ustars: both are paid 50/30/20 x floor(balance/100)
+        run(self, "upper:with-others", &format!("0,{DN_IBC_UP}"));
+        let c = self.sut.cur.clone();
+        self.ses.mark(format!("denoms:upper:paid-exactly:{}", c.bal(10, DN_IBC_UP) == 2800 && c.bal(11, DN_IBC_UP) == 1680 && c.bal(12, DN_IBC_UP) == 1120 && c.bal(13, DN_IBC_UP) == 0 && c.bal(me, DN_IBC_UP) == 78));
+        // listed alone
+        self.mint(me, &[(DN_IBC_UP, 500)], false);
+        run(self, "upper:alone", &format!("{DN_IBC_UP}"));
+        // an unsorted list with the mixed-case token-factory denom
+        self.mint(me, &[(DN_IBC_UP, 300), (0, 400)], false);
+        run(self, "mixed:unsorted", &format!("{DN_IBC_UP},{DN_FACTORY_MIXED},0"));
+        let c = self.sut.cur.clone();
+        self.ses.mark(format!("denoms:mixed:paid-exactly:{}", c.bal(10, DN_FACTORY_MIXED) == 350 && c.bal(me, DN_FACTORY_MIXED) == 77));
+        // two denoms that differ only in case are two denoms: both are paid, each from its own balance
+        self.mint(me, &[(DN_IBC_UP, 300)], false);
+        let before = (self.sut.cur.bal(10, DN_IBC_UP), self.sut.cur.bal(10, DN_IBC_LOW));
+        run(self, "case-twins", &format!("{DN_IBC_LOW},{DN_IBC_UP}"));
+        let c = self.sut.cur.clone();
+        self.ses.mark(format!("denoms:case-twins:both-paid:{}", c.bal(10, DN_IBC_UP) > before.0 && c.bal(10, DN_IBC_LOW) == before.1 + 150));
+        // entries with surrounding blanks / other case name denoms nobody holds: alone they select nothing …
+        self.mint(me, &[(0, 500), (DN_IBC_UP, 400)], false);
+        for a_ in DN_ALIASES {
+            run(self, &format!("alias-{a_}:alone"), &format!("{a_}"));
+        }
+        // … next to a held denom they are skipped and do NOT make `ustars` selected
+        let ustars_before = self.sut.cur.bal(me, 0);
+        run(self, "alias:with-upper", &format!("30,{DN_IBC_UP},32,31"));
+        self.ses.mark(format!("denoms:alias:ustars-untouched:{}", self.sut.cur.bal(me, 0) == ustars_before));
+        self.ses.end_case();
+    }
+
     /// scripted: balances at the top of Uint128
     fn scenario_huge(&mut self, mode: &str, profile: u64) {
         let members: Vec<(u64, u64)> = match profile {
@@ -1606,6 +1725,9 @@ fn main() {
         "funds:scripted:multi:ok", "funds:scripted:unselected:ok", "funds:scripted:zero-coin:ok", "funds:scripted:all-zero:err",
         "funds:scripted:dup-denom:ok", "funds:scripted:uncovered:err", "funds:scripted:unselected-kept:true",
         "huge:p0:ok", "huge:p1:ok", "huge:p2:ok",
+        "denoms:upper:with-others:ok", "denoms:upper:paid-exactly:true", "denoms:upper:alone:ok", "denoms:mixed:unsorted:ok", "denoms:mixed:paid-exactly:true",
+        "denoms:case-twins:ok", "denoms:case-twins:both-paid:true", "denoms:alias-30:alone:err", "denoms:alias-31:alone:err", "denoms:alias-32:alone:err",
+        "denoms:alias-33:alone:err", "denoms:alias:with-upper:ok", "denoms:alias:ustars-untouched:true",
         "counterexample:remainder:reproduced", "counterexample:double-pay:reproduced",
         "self-member:w2", "self-member-first:0,0:true", "inst:addr:ok", "inst:inst:ok", "upd:reweight:admin:ok",
     ] {
@@ -1626,6 +1748,7 @@ fn main() {
         g.scenario_handover(mode, true);
         g.scenario_handover(mode, false);
         g.scenario_funds(mode);
+        g.scenario_case_denoms(mode);
         g.scenario_bounds(mode);
         for p in 0..3 {
             g.scenario_huge(mode, p);
@@ -1756,14 +1879,14 @@ fn main() {
             match g.rng.below(20) {
                 0..=5 => {
                     let nd = g.rng.range(1, 3);
-                    let mut ds: Vec<u64> = vec![0, 1, 2, 3];
+                    let mut ds: Vec<u64> = vec![0, 1, 2, 3, DN_IBC_UP, DN_FACTORY_MIXED, DN_IBC_LOW];
                     g.rng.shuffle(&mut ds);
                     ds.truncate(nd as usize);
                     g.deposit(&ds);
                 }
                 6..=12 => {
                     if g.rng.chance(3, 5) {
-                        let mut ds: Vec<u64> = vec![0, 1, 2, 3];
+                        let mut ds: Vec<u64> = vec![0, 1, 2, 3, DN_IBC_UP, DN_IBC_LOW];
                         g.rng.shuffle(&mut ds);
                         ds.truncate(g.rng.range(1, 2) as usize);
                         g.deposit(&ds);
